@@ -348,6 +348,7 @@ class Folder(FileSystemItemABC):
                 file.scan()
                 if file.visible_health_status == FileSystemItemHealthStatus.CORRUPT:
                     self.visible_health_status = FileSystemItemHealthStatus.CORRUPT
+            self._scanned_this_step = True
             return True
 
         if self.scan_countdown <= 0:
